@@ -196,9 +196,9 @@ def rules_validate(run, r):
 
 def check(run):
     prog = run.prog
-    rules_registration(run)
+    run.guard(rules_registration, run)
     r = run.rule('C12.1b', 'initial / memory / child-kind / type obligations: validate() sub-validators and importer tests')
-    rules_validate(run, r)
+    run.guard(rules_validate, run, r)
     from .c11 import io_names
     N = io_names(run, r)
     si = run.fn('_import_state_from_dict')
